@@ -46,7 +46,7 @@ fn frame(body: &[u8], declared: Option<u32>) -> Vec<u8> {
 
 fn one(seed: u64, idx: u64, rep: &mut Report) {
     let mut rng = Rng::derive(seed, 12, idx);
-    for _ in 0..32 {
+    for _ in 0..(if crate::util::tiny() { 3 } else { 32 }) {
         rep.evaluations += 1;
         let class: &'static str;
         let input: Vec<u8>;
@@ -73,7 +73,7 @@ fn one(seed: u64, idx: u64, rep: &mut Report) {
             }
             3 => {
                 // deep nesting
-                let depth = *rng.pick(&[10usize, 100, 1000, 10_000, 100_000, 500_000]);
+                let depth = if crate::util::tiny() { *rng.pick(&[10usize, 100]) } else { *rng.pick(&[10usize, 100, 1000, 10_000, 100_000, 500_000]) };
                 let mut b = Vec::with_capacity(depth + 8);
                 let major = *rng.pick(&[4u8, 5, 6]);
                 for _ in 0..depth {
@@ -99,7 +99,7 @@ fn one(seed: u64, idx: u64, rep: &mut Report) {
             }
             5 => {
                 // 1 MiB-ish path strings
-                let n = *rng.pick(&[1000usize, 65_536, (1 << 20) - 64]);
+                let n = if crate::util::tiny() { 300 } else { *rng.pick(&[1000usize, 65_536, (1 << 20) - 64]) };
                 let mut b = Vec::new();
                 b.push(0xA1);
                 b.extend_from_slice(&[0x63, b'G', b'e', b't', 0xA1, 0x64, b'p', b'a', b't', b'h']);
